@@ -120,7 +120,7 @@ def collapsePost (reload : Bytes → Option Testcase) (o : Oracle) (it : It) : I
   let modified := collapseSub (raw.length + 1) raw
   if raw == modified then it else
   match reload (it.best.before ++ modified ++ it.best.after) with
-  | none => { it with internalError := true }    -- load raised
+  | none => it    -- load raised LithiumError (a marker word was formed): the collapse is skipped this round
   | some newTc =>
     (it.try o newTc (fun r => { tag := 3, lo := 0, hi := 0, size := 0, bestLen := 0, base := it.best,
                                 tIdx := it.nTests, cand := newTc, resp := r })).2
